@@ -1,8 +1,235 @@
-/- driver component stub: replaced by the real component when its model exists -/
+/-
+  driver component `batch`: Transcript.logits / encodeGames / dedupBatch and the C12 predicates
+  on implementation data.
+
+  Text forms (tokens separated by blanks; `*` is the empty list everywhere):
+    rational      `n/d` (or `n`)
+    move          `x:y:t:s`    t = 1..7, s = `none` | `-` | `d.d.d`
+    move list     moves joined by `;`            prob list   rationals joined by `;`
+    transcript    `<W|B|N> <nplies>` then per ply `<pos7> <moves> <probs> <value>`
+    token row     ints joined by `,`             mask row    string of `0`/`1`
+    sparse row    `id=n/d` joined by `;` (the non-zero columns, ascending)
+    batch row     `<token row> <mask row> <targets joined by ;>`
+    game batch    `<n> P <token row>*n M <mask row>*n L <W> <sparse row>*n V <values> R <results>`
+-/
 import TakVerif.Driver.Ser
+import TakVerif.Model.Batch
+import TakVerif.Spec.Batch
 
 namespace Tak.Driver.Batch
+open Tak.Ser Tak.Batch Tak.BatchSpec
 
-def handle : List String → Option String := fun _ => none
+/-! ### parsing / printing -/
+
+def parseRat (s : String) : Option Rat :=
+  match s.splitOn "/" with
+  | [n] => do let n ← n.toInt?; pure (n : Rat)
+  | [n, d] => do
+    let n ← n.toInt?
+    let d ← d.toNat?
+    if d = 0 then none else pure (mkRat n d)
+  | _ => none
+
+def showRat (r : Rat) : String := s!"{r.num}/{r.den}"
+
+def parseList {α : Type} (sep : String) (f : String → Option α) (s : String) : Option (List α) :=
+  if s = "*" then some [] else (s.splitOn sep).mapM f
+
+def showList {α : Type} (sep : String) (f : α → String) (l : List α) : String :=
+  if l.isEmpty then "*" else sep.intercalate (l.map f)
+
+def parseMoveC (s : String) : Option Move :=
+  match s.splitOn ":" with
+  | [x, y, t, sl] => do
+    let x ← x.toInt?
+    let y ← y.toInt?
+    let t ← t.toNat?
+    let t ← moveTypeOfNat t
+    let sl ←
+      if sl = "none" then some none
+      else if sl = "-" then some (some [])
+      else do
+        let ds ← (sl.splitOn ".").mapM String.toInt?
+        pure (some ds)
+    pure ⟨x, y, t, sl⟩
+  | _ => none
+
+def parseMask (s : String) : Option (List Bool) :=
+  if s = "*" then some [] else
+  s.toList.mapM fun c => if c = '1' then some true else if c = '0' then some false else none
+
+def showMask (m : List Bool) : String :=
+  if m.isEmpty then "*" else String.ofList (m.map fun b => if b then '1' else '0')
+
+def parseToks (s : String) : Option (List Nat) := parseList "," String.toNat? s
+def showToks (t : List Nat) : String := showList "," toString t
+def parseRats (s : String) : Option (List Rat) := parseList ";" parseRat s
+def showRats (t : List Rat) : String := showList ";" showRat t
+
+def showSparse (row : List Rat) : String :=
+  showList ";" (fun (p : Rat × Nat) => s!"{p.2}={showRat p.1}") (row.zipIdx.filter fun p => p.1 != 0)
+
+/-- a sparse row back to a dense one of width `W` -/
+def parseSparse (W : Nat) (s : String) : Option (List Rat) := do
+  let es ← parseList ";" (fun e =>
+    match e.splitOn "=" with
+    | [i, r] => do
+      let i ← i.toNat?
+      let r ← parseRat r
+      pure (i, r)
+    | _ => none) s
+  if es.any (fun e => e.1 ≥ W) then none else
+  pure (es.foldl (fun row e => row.set e.1 e.2) (List.replicate W 0))
+
+def parseWidth (s : String) : Option Nat := if s = "max" then some maxMoveId else s.toNat?
+
+/-- `nplies` plies of 10 tokens each; returns the lists and the remaining tokens -/
+def parsePlies : Nat → List String →
+    Option ((List Pos × List (List Move) × List (List Rat) × List Rat) × List String)
+  | 0, rest => some (([], [], [], []), rest)
+  | n + 1, toks => do
+    let p ← parsePos (toks.take 7)
+    match toks.drop 7 with
+    | ms :: ps :: v :: rest =>
+      let ms ← parseList ";" parseMoveC ms
+      let ps ← parseRats ps
+      let v ← parseRat v
+      let ((P, M, Q, V), rest) ← parsePlies n rest
+      pure ((p :: P, ms :: M, ps :: Q, v :: V), rest)
+    | _ => none
+
+def parseTranscript : List String → Option (Transcript × List String)
+  | res :: n :: rest => do
+    let result ← (if res = "W" then some (some Color.white) else if res = "B" then some (some Color.black)
+      else if res = "N" then some none else none)
+    let n ← n.toNat?
+    let ((P, M, Q, V), rest) ← parsePlies n rest
+    pure (⟨P, M, Q, V, result⟩, rest)
+  | _ => none
+
+def parseTranscripts : Nat → List String → Option (List Transcript × List String)
+  | 0, rest => some ([], rest)
+  | n + 1, toks => do
+    let (t, rest) ← parseTranscript toks
+    let (ts, rest) ← parseTranscripts n rest
+    pure (t :: ts, rest)
+
+def parseRows : Nat → List String → Option (List Row × List String)
+  | 0, rest => some ([], rest)
+  | n + 1, t :: m :: g :: rest => do
+    let t ← parseToks t
+    let m ← parseMask m
+    let g ← parseRats g
+    let (rs, rest) ← parseRows n rest
+    pure (⟨t, m, g⟩ :: rs, rest)
+  | _, _ => none
+
+def showRow (r : Row) : String := s!"{showToks r.toks} {showMask r.mask} {showRats r.tgt}"
+
+def showRows (rs : List Row) : String :=
+  " ".intercalate (toString rs.length :: rs.map showRow)
+
+def showGameBatch (W : Nat) (gb : GameBatch) : String :=
+  " ".intercalate <|
+    [toString gb.positions.length, "P"] ++ gb.positions.map showToks ++ ["M"] ++ gb.mask.map showMask ++
+    ["L", toString W] ++ gb.moves.map showSparse ++ ["V", showRats gb.values, "R", showRats gb.results]
+
+/-- inverse of `showGameBatch` (every column with `n` rows) -/
+def parseGameBatch : List String → Option (Nat × GameBatch)
+  | n :: "P" :: rest => do
+    let n ← n.toNat?
+    let P ← (rest.take n).mapM parseToks
+    match rest.drop n with
+    | "M" :: rest =>
+      let M ← (rest.take n).mapM parseMask
+      match rest.drop n with
+      | "L" :: w :: rest =>
+        let w ← w.toNat?
+        let L ← (rest.take n).mapM (parseSparse w)
+        match rest.drop n with
+        | ["V", v, "R", r] =>
+          let v ← parseRats v
+          let r ← parseRats r
+          if P.length = n ∧ M.length = n ∧ L.length = n then pure (w, ⟨P, M, L, v, r⟩) else none
+        | _ => none
+      | _ => none
+    | _ => none
+  | _ => none
+
+/-! ### predicates on implementation output -/
+
+/-- which C12 clauses fail for `dedup_batch` output `out` on input `inp` -/
+def dedupFailures (tol : Rat) (inp out : List Row) : List String :=
+  (if dedupKeysOK inp out then [] else ["dedup-order"]) ++
+  (if dedupMeanOK tol inp out then [] else ["dedup-mean"]) ++
+  (if dedupIdOK inp out then [] else ["dedup-identity"]) ++
+  (if dedupFirstOK inp out then [] else ["dedup-key-padding"])
+
+/-- which C12 clauses fail for `encode_games` output `got`; by C12_rows / C12_dense / C12_labels the
+    model's batch is the only one meeting them, column by column -/
+def encodeGamesFailures (want got : GameBatch) : List String :=
+  (if want.positions == got.positions && want.mask == got.mask && want.values == got.values
+    then [] else ["row-order"]) ++
+  (if want.moves == got.moves then [] else ["dense-target"]) ++
+  (if want.results == got.results then [] else ["label"])
+
+def showFailures (fs : List String) : String :=
+  if fs.isEmpty then "ok" else "fail " ++ ",".intercalate fs
+
+/-- ops:
+  `dedup <n> <row>*n`                               → `ok <m> <row>*m`
+  `check-dedup <tol> <n> <row>*n <m> <row>*m`       → `ok` | `fail <keys>`
+  `logits <W|max> <transcript>`                     → `ok <n> <sparse row>*n` | `crash`
+  `encodegames <W|max> <g> <transcript>*g`          → `ok <game batch>` | `crash`
+  `check-encodegames <W|max> <g> <transcript>*g <game batch>` → `ok` | `fail <keys>`
+  `key <token row> <mask row>`                      → `ok <token row>`
+-/
+def handle : List String → Option String
+  | "dedup" :: n :: rest => do
+    let n ← n.toNat?
+    let (rows, rest) ← parseRows n rest
+    if !rest.isEmpty then none else
+    pure ("ok " ++ showRows (dedupBatch rows))
+  | "check-dedup" :: tol :: n :: rest => do
+    let tol ← parseRat tol
+    let n ← n.toNat?
+    let (inp, rest) ← parseRows n rest
+    match rest with
+    | m :: rest =>
+      let m ← m.toNat?
+      let (out, rest) ← parseRows m rest
+      if !rest.isEmpty then none else
+      pure (showFailures (dedupFailures tol inp out))
+    | [] => none
+  | "logits" :: w :: rest => do
+    let W ← parseWidth w
+    let (t, rest) ← parseTranscript rest
+    if !rest.isEmpty then none else
+    match t.logits W with
+    | none => pure "crash"
+    | some L => pure (" ".intercalate ("ok" :: toString L.length :: L.map showSparse))
+  | "encodegames" :: w :: g :: rest => do
+    let W ← parseWidth w
+    let g ← g.toNat?
+    let (logs, rest) ← parseTranscripts g rest
+    if !rest.isEmpty then none else
+    match encodeGames encodeTokens W logs with
+    | none => pure "crash"
+    | some gb => pure ("ok " ++ showGameBatch W gb)
+  | "check-encodegames" :: w :: g :: rest => do
+    let W ← parseWidth w
+    let g ← g.toNat?
+    let (logs, rest) ← parseTranscripts g rest
+    let (w', got) ← parseGameBatch rest
+    match encodeGames encodeTokens W logs with
+    | none => pure "fail model-crash"
+    | some want =>
+      if w' ≠ W then pure "fail dense-target" else
+      pure (showFailures (encodeGamesFailures want got))
+  | ["key", t, m] => do
+    let t ← parseToks t
+    let m ← parseMask m
+    pure ("ok " ++ showToks (key ⟨t, m, []⟩))
+  | _ => none
 
 end Tak.Driver.Batch
